@@ -506,6 +506,22 @@ theorem c18_void_source_fixed_witness :
     allDone c s = true ∧ s.payload = Outcome.exc 5 ∧ s.outer = some (OuterRes.exc 5) ∧ s.convIn = [] := by
   decide
 
+/-! ## Source flavours: the value the adapter reads back is the operation's value
+
+`payload = val v` is what `future<T>::value()` of the adapter's future returns for every flavour of source the factory may
+return — a `future<T>`, a `future<T&>` resolved through its promise, an already resolved `future<T&>::set_value(x)`. -/
+
+theorem c18_source_flavour_read (fl : SrcFlavour) (v a : Nat) : readBack fl (storedState false fl) v a = some v := by
+  cases fl <;> rfl
+
+/-- the pinned code: the static reference factory stored the address under `State::value`, so an adapter whose
+`future<T>` was constructed from it read the pointer bits — the completion ran once but received the address of the
+operation's value.  Repaired in /repo (`fix:` commit: `__SetReferenceTag` stores `State::value_ref`). -/
+theorem c18_static_ref_asis_witness :
+    readBack SrcFlavour.refStatic (storedState true SrcFlavour.refStatic) 10 764171228 = some 764171228 ∧
+    readBack SrcFlavour.refPromise (storedState true SrcFlavour.refPromise) 10 764171228 = some 10 := by
+  decide
+
 /-! ## Why `Pre` is needed: a throwing callback is invoked twice by `callback_await_coro` (documented contract) -/
 
 def throwingCb : Cfg :=
